@@ -75,24 +75,18 @@ partial def dvalToJson : DVal → Json
   | .seq xs => Json.mkObj [("seq", Json.arr (xs.toList.map dvalToJson).toArray)]
   | .map es => Json.mkObj [("map", Json.arr (es.toList.map fun (k, v) => Json.arr #[dvalToJson k, dvalToJson v]).toArray)]
   | .enum k p => Json.mkObj [("enum", Json.arr #[dvalToJson k, dvalToJson p])]
-  | .codec v => Json.mkObj [("codec", Json.str (toString v))]
-  | .narrowed v => Json.mkObj [("narrowed", Json.str (toString v))]
 
-/-- does the value contain a part whose rendering is modelled elsewhere (temporal / decimal strings, f64→f32) -/
-partial def dvalOpaque : DVal → Bool
-  | .codec _ | .narrowed _ => true
-  | .some v => dvalOpaque v
-  | .seq xs => xs.toList.any dvalOpaque
-  | .map es => es.toList.any fun (k, v) => dvalOpaque k || dvalOpaque v
-  | .enum k p => dvalOpaque k || dvalOpaque p
+/-- is the dumped `{"f32": bits}` a NaN -/
+def jsonF32IsNan (j : Json) : Bool :=
+  match j.getObjVal? "f32" with
+  | .ok (.num n) => n.exponent == 0 && n.mantissa ≥ 0 && SaModel.Float.isNan SaModel.Float.f32 (n.mantissa.toNat % 4294967296)
   | _ => false
 
-/-- equality of an implementation dump with a model value, where opaque parts of the model match any string /
-byte string / f32 of the implementation -/
+/-- equality of an implementation dump with a model value; f32 NaNs are compared as a class (`f64 as f32` does not
+specify the payload) -/
 partial def dvalMatches (d : DVal) (j : Json) : Bool :=
   match d with
-  | .codec _ => (j.getObjVal? "str").isOk || (j.getObjVal? "bytes").isOk
-  | .narrowed _ => (j.getObjVal? "f32").isOk
+  | .f32 b => dvalToJson d == j || (SaModel.Float.isNan SaModel.Float.f32 (b.toNat % 4294967296) && jsonF32IsNan j)
   | .some v => match j.getObjVal? "some" with
     | .ok x => dvalMatches v x
     | _ => false
